@@ -12,12 +12,12 @@ def frames(l, compress):
     return frame(as_bytes(head(l)), published_flag(as_bytes(head(l)), compress)) + frames(tail(l), compress)
 
 
-@recspec(("vl",), "bool")
-def all_fit(l):
-    """every queued item is a byte string within the format's 32-bit length limit"""
+@recspec(("vl", "bool"), "bool")
+def all_fit(l, compress):
+    """every queued item is a byte string whose transmitted form is within the format's 32-bit length limit"""
     if isnil(l):
         return True
-    return isbytes(head(l)) and fits(as_bytes(head(l))) and all_fit(tail(l))
+    return isbytes(head(l)) and fits_sent(as_bytes(head(l)), compress) and all_fit(tail(l), compress)
 
 
 @lemma((("a", "vl"), ("b", "vl"), ("c", "bool")), induct="a")
@@ -25,9 +25,9 @@ def frames_app(a, b, c):
     return frames(app(a, b), c) == frames(a, c) + frames(b, c)
 
 
-@lemma((("a", "vl"), ("b", "vl")), induct="a")
-def all_fit_app(a, b):
-    return all_fit(app(a, b)) == (all_fit(a) and all_fit(b))
+@lemma((("a", "vl"), ("b", "vl"), ("c", "bool")), induct="a")
+def all_fit_app(a, b, c):
+    return all_fit(app(a, b), c) == (all_fit(a, c) and all_fit(b, c))
 
 
 @spec
